@@ -210,7 +210,13 @@ fn c05_one(ctx: &Ctx, m: usize, k: u64, frag: &mut Frag) {
         Ok(got) => {
             let cg = canon(&c.schema, m, &got);
             if cg != cx {
-                frag.violation("c05|gen|value-changed", &format!("{}: decode then encode changed the value: expected {} got {}", mname(m), cx.render(300), cg.render(300)), cj(m, &x, json!({"encoded_hex": hex(&out)})));
+                // (the typed value is unchanged when only the PRESENCE of required fields inside a
+                // default-valued map value is lost on the wire: that is C06's finding, not a round-trip failure)
+                if only_required_default_map_values_dropped(&c.schema, m, &cx, &cg) {
+                    frag.masked("presence-of-required-fields-in-default-map-value(C06)");
+                } else {
+                    frag.violation("c05|gen|value-changed", &format!("{}: decode then encode changed the value at {}: expected {} got {}", mname(m), first_diff_detail(&c.schema, m, &cx, &cg), cx.render(200), cg.render(200)), cj(m, &x, json!({"encoded_hex": hex(&out)})));
+                }
             }
         }
         Err(e) => frag.violation("c05|gen|encoded-bytes-invalid", &format!("{}: re-encoded bytes are not valid protobuf: {:?}", mname(m), e), cj(m, &x, json!({"encoded_hex": hex(&out)}))),
@@ -373,8 +379,8 @@ fn c06_one(ctx: &Ctx, m: usize, k: u64, frag: &mut Frag) {
                     Ok(got) => {
                         let cg = canon(&c.schema, m, &got);
                         if cg != cx {
-                            let which = first_diff_kind(&c.schema, m, &cx, &cg);
-                            frag.violation(&format!("c06|value|{}", which), &format!("{}: a conforming encoding ({}) decodes/encodes to a different value: expected {} got {}", mname(m), vname, cx.render(260), cg.render(260)), case());
+                            let which = if only_required_default_map_values_dropped(&c.schema, m, &cx, &cg) { MAP_VALUE_KEY.to_string() } else { first_diff_kind(&c.schema, m, &cx, &cg) };
+                            frag.violation(&format!("c06|value|{}", which), &format!("{}: a conforming encoding ({}) decodes/encodes to a different value at {}: expected {} got {}", mname(m), vname, first_diff_detail(&c.schema, m, &cx, &cg), cx.render(160), cg.render(160)), case());
                         }
                     }
                     Err(e) => frag.violation("c06|pilota-bytes-invalid", &format!("{}: bytes produced by pilota are not valid protobuf for the schema: {:?}", mname(m), e), case()),
@@ -385,6 +391,98 @@ fn c06_one(ctx: &Ctx, m: usize, k: u64, frag: &mut Frag) {
             Err(p) => frag.violation(&format!("c06|decode-panic|{}|{}", p.site(), p.class()), &format!("{} {}", p.location, p.message), case()),
         }
     }
+}
+
+/// One recorded defect, one key: `hash_map::encode` / `btree_map::encode` omit a map VALUE that
+/// equals `V::default()`. For a proto2 message value that consists only of `required` fields
+/// holding their type's default, the required fields are thereby not on the wire (a conforming
+/// proto2 reader reports them missing). True iff every difference between `a` (expected) and
+/// `b` (what pilota's bytes decode to) is of exactly that shape.
+const MAP_VALUE_KEY: &str = "map-value-message-equal-to-default-omitted-with-its-required-fields";
+
+fn only_required_default_map_values_dropped(s: &PSchema, m: usize, a: &PMsgVal, b: &PMsgVal) -> bool {
+    if s.proto3 {
+        return false;
+    }
+    let mut explained_any = false;
+    for f in &s.msgs[m].fields {
+        let oa: Vec<&PV> = a.0.iter().filter(|(n, _)| *n == f.num).map(|x| &x.1).collect();
+        let ob: Vec<&PV> = b.0.iter().filter(|(n, _)| *n == f.num).map(|x| &x.1).collect();
+        if oa == ob {
+            continue;
+        }
+        if oa.len() != ob.len() {
+            return false;
+        }
+        match &f.kind {
+            FKind::Plain(_, PTy::Msg(mi)) => {
+                for (x, y) in oa.iter().zip(ob.iter()) {
+                    match (x, y) {
+                        (PV::Msg(mx), PV::Msg(my)) if mx == my => {}
+                        (PV::Msg(mx), PV::Msg(my)) => {
+                            if !only_required_default_map_values_dropped(s, *mi, mx, my) {
+                                return false;
+                            }
+                            explained_any = true;
+                        }
+                        _ => return false,
+                    }
+                }
+            }
+            FKind::Map(_, PTy::Msg(vm)) => {
+                for (x, y) in oa.iter().zip(ob.iter()) {
+                    if x == y {
+                        continue;
+                    }
+                    match (x, y) {
+                        (PV::Entry(kx, vx), PV::Entry(ky, vy)) if kx == ky => match (&**vx, &**vy) {
+                            (PV::Msg(mx), PV::Msg(my)) => {
+                                let dropped = my.0.is_empty()
+                                    && !mx.0.is_empty()
+                                    && mx.0.iter().all(|(num, pv)| {
+                                        s.msgs[*vm].fields.iter().any(|g| g.num == *num && matches!(&g.kind, FKind::Plain(Label::Required, t) if !matches!(t, PTy::Msg(_)) && default_of(s, t) == *pv))
+                                    });
+                                if dropped {
+                                    explained_any = true;
+                                } else if !only_required_default_map_values_dropped(s, *vm, mx, my) {
+                                    return false;
+                                } else {
+                                    explained_any = true;
+                                }
+                            }
+                            _ => return false,
+                        },
+                        _ => return false,
+                    }
+                }
+            }
+            _ => return false,
+        }
+    }
+    explained_any
+}
+
+/// the first differing occurrences themselves, for the violation text
+fn first_diff_detail(s: &PSchema, m: usize, a: &PMsgVal, b: &PMsgVal) -> String {
+    for f in &s.msgs[m].fields {
+        let oa: Vec<&PV> = a.0.iter().filter(|(n, _)| *n == f.num).map(|x| &x.1).collect();
+        let ob: Vec<&PV> = b.0.iter().filter(|(n, _)| *n == f.num).map(|x| &x.1).collect();
+        if oa != ob {
+            if let FKind::Plain(_, PTy::Msg(mi)) = &f.kind {
+                for (x, y) in oa.iter().zip(ob.iter()) {
+                    if let (PV::Msg(mx), PV::Msg(my)) = (x, y) {
+                        if mx != my {
+                            return format!("#{}/{}", f.num, first_diff_detail(s, *mi, mx, my));
+                        }
+                    }
+                }
+            }
+            let only_a: Vec<String> = oa.iter().filter(|x| !ob.contains(x)).take(3).map(|x| format!("{:?}", x).chars().take(120).collect()).collect();
+            let only_b: Vec<String> = ob.iter().filter(|x| !oa.contains(x)).take(3).map(|x| format!("{:?}", x).chars().take(120).collect()).collect();
+            return format!("#{}: {} vs {} occurrences; only expected: {:?}; only got: {:?}", f.num, oa.len(), ob.len(), only_a, only_b);
+        }
+    }
+    "?".into()
 }
 
 /// declared type + position of the first field whose canonical occurrences differ
@@ -509,8 +607,12 @@ fn c18_one(ctx: &Ctx, m: usize, k: u64, frag: &mut Frag) {
                 (Ok(want), Ok(got)) => {
                     let (cw, cg) = (canon(&c.schema, m, &want), canon(&c.schema, m, &got));
                     if cw != cg {
-                        let which = first_diff_kind(&c.schema, m, &cw, &cg);
-                        frag.violation(&format!("c18|merge-semantics|{}", which), &format!("{}: merging two encodings: reference stream decoder gives {} but pilota gives {}", mname(m), cw.render(260), cg.render(260)), case(json!({})));
+                        if only_required_default_map_values_dropped(&c.schema, m, &cw, &cg) {
+                            frag.masked("presence-of-required-fields-in-default-map-value(C06)");
+                        } else {
+                            let which = first_diff_kind(&c.schema, m, &cw, &cg);
+                            frag.violation(&format!("c18|merge-semantics|{}", which), &format!("{}: merging two encodings at {}: reference stream decoder gives {} but pilota gives {}", mname(m), first_diff_detail(&c.schema, m, &cw, &cg), cw.render(200), cg.render(200)), case(json!({})));
+                        }
                     }
                     // coverage observations
                     observe_merge(&c.schema, m, &a, &b, frag);
@@ -539,8 +641,12 @@ fn c18_one(ctx: &Ctx, m: usize, k: u64, frag: &mut Frag) {
             if let Ok(got) = refdec(&c.schema, m, &v.to_vec()) {
                 let (cw, cg) = (canon(&c.schema, m, &want), canon(&c.schema, m, &got));
                 if cw != cg {
-                    let which = first_diff_kind(&c.schema, m, &cw, &cg);
-                    frag.violation(&format!("c18|interleaved|{}", which), &format!("{}: interleaved records: reference {} vs pilota {}", mname(m), cw.render(260), cg.render(260)), case(json!({"interleaved_hex": hex(&inter)})));
+                    if only_required_default_map_values_dropped(&c.schema, m, &cw, &cg) {
+                        frag.masked("presence-of-required-fields-in-default-map-value(C06)");
+                    } else {
+                        let which = first_diff_kind(&c.schema, m, &cw, &cg);
+                        frag.violation(&format!("c18|interleaved|{}", which), &format!("{}: interleaved records differ at {}: reference {} vs pilota {}", mname(m), first_diff_detail(&c.schema, m, &cw, &cg), cw.render(200), cg.render(200)), case(json!({"interleaved_hex": hex(&inter)})));
+                    }
                 }
             }
         }
